@@ -63,13 +63,17 @@ theorem tie_expand_reader : Generated.sites_expandRead = [("write", "b", "0"), (
 theorem tie_entry_loops :
     Generated.loops_IndexFromArchive = [("forever", 6)] ∧ Generated.sites_IndexFromArchive = [] ∧
     Generated.prefixGuards_IndexFromArchive = [("hdr.Name", ".SIGN.", "then")] ∧
-    Generated.loops_checkSums = [("forever", 5)] ∧ Generated.sites_checkSums = [] := by decide
+    Generated.loops_checkSums = [("forever", 5)] ∧
+    -- the helper's only bracket expression reads the PAX record map with a constant key
+    Generated.sites_checkSums = [("index", "checksumFromHeader: pax", "paxRecordsChecksumKey")] := by decide
 
 theorem tie_lock_baseimg :
     Generated.sites_installableForArch = [] ∧
     Generated.loops_installableForArch = [("range l.Contents.Packages", 1)] ∧
     Generated.sites_lockFromFile = [] ∧ Generated.loops_lockFromFile = [] ∧
-    Generated.sites_baseimgNew = [] ∧ Generated.loops_baseimgNew = [] := by decide
+    Generated.sites_baseimgNew = [] ∧
+    Generated.loops_baseimgNew = [("getImageForArch: range indexManifest.Manifests", 4),
+      ("getUnnestedImageIndex: range indexManifest.Manifests", 1)] := by decide
 
 theorem tie_include :
     Generated.sites_parseIncluding = [] ∧
